@@ -315,6 +315,9 @@ func (r *run) open(a *actor, e Ev) {
 	}
 	for _, d := range a.dts {
 		if d.key == key {
+			if e.Pos == 1 {
+				r.openAgain(a, d, e, mode, kind)
+			}
 			return // one object per key and actor
 		}
 	}
@@ -395,6 +398,84 @@ func (r *run) open(a *actor, e Ev) {
 	a.dts = append(a.dts, d)
 	r.probe("open-" + mode)
 	r.logf("%s opens %s %s (%s)", a.name, kind, key, mode)
+}
+
+// openAgain: the application asks its client for a key it holds already. With the same type it gets the
+// object it has (whatever the state of its entry); with another type it gets nothing and, if it gave an
+// error handler, the error - never a second replica under the key, never a crash.
+func (r *run) openAgain(a *actor, d *dtState, e Ev, mode, kind string) {
+	key := d.key
+	var errs []string
+	var onError func(dt orda.Datatype, es ...errors.OrdaError)
+	if e.N&4 == 0 {
+		onError = func(dt orda.Datatype, es ...errors.OrdaError) {
+			d.mu.Lock()
+			for _, x := range es {
+				errs = append(errs, fmt.Sprintf("%d:%s", x.GetCode(), x.Error()))
+			}
+			d.mu.Unlock()
+		}
+	}
+	var h *orda.Handlers
+	if e.N&8 == 0 {
+		h = orda.NewHandlers(nil, nil, onError)
+	}
+	var pub interface{}
+	msg, fp := safely(func() { pub = openCall(a.client, mode, kind, key, h) })
+	r.probe("open-again")
+	if msg != "" {
+		r.fail("nocrash", r.prop+".client-crash", fp, "%s: asking again for %s (held as %s, asked as %s, %s) panicked: %s", a.name, key, d.kind, kind, mode, msg)
+		panic(abortRun{})
+	}
+	synctest.Wait()
+	got := pub != nil && !isNilIface(pub)
+	d.mu.Lock()
+	nerr := len(errs)
+	d.mu.Unlock()
+	if kind == d.kind {
+		r.probe("open-again-same-type")
+		if !got {
+			r.fail("entry", "C13.same-key-again", "same-type/nothing", "%s: asked again for %s %s (%s) and got nothing (errors: %v)", a.name, kind, key, mode, errs)
+		} else if dt, ok := pub.(iface.Datatype); !ok || dt != d.dt {
+			r.fail("entry", "C13.same-key-again", "same-type/second-replica", "%s: asked again for %s %s (%s) and got another object than the one it holds: two replicas under one key in one client", a.name, kind, key, mode)
+		}
+		return
+	}
+	r.probe("open-again-other-type")
+	if got {
+		r.fail("entry", "C13.same-key-again", "other-type/object", "%s: holds %s as %s, asked for it as %s (%s) and got an object", a.name, key, d.kind, kind, mode)
+	}
+	if onError != nil && h != nil && nerr == 0 {
+		r.fail("entry", "C13.same-key-again", "other-type/no-error", "%s: holds %s as %s, asked for it as %s (%s): refused, but the error handler given with the call was not called", a.name, key, d.kind, kind, mode)
+	}
+}
+
+func openCall(c orda.Client, mode, kind, key string, h *orda.Handlers) interface{} {
+	switch mode + ":" + kind {
+	case "create:counter":
+		return c.CreateCounter(key, h)
+	case "subscribe:counter":
+		return c.SubscribeCounter(key, h)
+	case "soc:counter":
+		return c.SubscribeOrCreateCounter(key, h)
+	case "create:map":
+		return c.CreateMap(key, h)
+	case "subscribe:map":
+		return c.SubscribeMap(key, h)
+	case "soc:map":
+		return c.SubscribeOrCreateMap(key, h)
+	case "create:list":
+		return c.CreateList(key, h)
+	case "subscribe:list":
+		return c.SubscribeList(key, h)
+	case "soc:list":
+		return c.SubscribeOrCreateList(key, h)
+	case "create:doc":
+		return c.CreateDocument(key, h)
+	case "subscribe:doc":
+		return c.SubscribeDocument(key, h)
+	}
+	return c.SubscribeOrCreateDocument(key, h)
 }
 
 // typeOfKey: kind of the datatype stored under (collection, key), "" if none.
